@@ -6,6 +6,8 @@
 //! around [sequence::Sequence] - which is responsible for restarting a
 //! dropped connection and terminating it on errors.s
 use crate::config::Config;
+#[cfg(all(feature = "zvt_verif", not(test)))]
+use crate::verif_hook::shim as tokio;
 
 use anyhow::{bail, Result};
 use async_stream::stream;
